@@ -35,7 +35,8 @@ func ruleU1(c *Ctx, id string) {
 	R.Analysed[FuncName(w)] = true
 	for _, cs := range P.CallersOf(V.CommitUnstable) {
 		if IsRepoFunc(cs.Caller) {
-			R.Check(cs.Caller == w, id, FuncName(cs.Caller)+"|calls CommitUnstable", P.Pos(cs.Instr.Pos()), "the asynchronous commit is used only by WRITE", "WRITE", "a procedure other than WRITE acknowledges without durability")
+			ow := ownerOf(cs.Caller)
+			R.Check(ow == w, id, FuncName(ow)+"|calls CommitUnstable", P.Pos(cs.Instr.Pos()), "the asynchronous commit is used only by WRITE", "WRITE", "a procedure other than WRITE acknowledges without durability")
 		}
 	}
 	constOf := func(name string) int64 {
@@ -46,25 +47,37 @@ func ruleU1(c *Ctx, id string) {
 		return -1
 	}
 	fileSync, dataSync := constOf("FILE_SYNC"), constOf("DATA_SYNC")
-	notLevel := func(blk *ssa.BasicBlock, level int64) bool {
-		return guardedBy(w, blk, func(cd Cond) (bool, bool) {
-			if cd.Op != token.EQL && cd.Op != token.NEQ {
-				return false, false
+	wScopes := scopesOf(w)
+	notLevelM := func(level int64) CondMatcherX {
+		return func(sub Subst) func(Cond) (bool, bool) {
+			return func(cd Cond) (bool, bool) {
+				if cd.Op != token.EQL && cd.Op != token.NEQ || cd.X == nil || cd.Y == nil {
+					return false, false
+				}
+				a, b := sub.resolve(stripConv(cd.X)), sub.resolve(stripConv(cd.Y))
+				if !isStableLoad(a) {
+					a, b = b, a
+				}
+				k, isk := constInt(b)
+				if !isStableLoad(a) || !isk || k != level {
+					return false, false
+				}
+				return true, cd.Op == token.NEQ
 			}
-			a, b := cd.X, cd.Y
-			if !isStableLoad(a) {
-				a, b = b, a
-			}
-			k, isk := constInt(b)
-			if !isStableLoad(a) || !isk || k != level {
-				return false, false
-			}
-			return true, cd.Op == token.NEQ
-		})
+		}
 	}
-	for _, call := range P.CallsIn(w, funcIs(V.CommitUnstable)) {
-		ok := notLevel(call.Block(), fileSync) && notLevel(call.Block(), dataSync)
-		R.Check(ok, id, "NFSPROC3_WRITE|CommitUnstable only when neither FILE_SYNC nor DATA_SYNC", P.Pos(call.Pos()), "the asynchronous commit is dominated by args.Stable != FILE_SYNC and args.Stable != DATA_SYNC", "both guards dominate", "a write requested with stable semantics is acknowledged after an asynchronous commit")
+	// the statements of WRITE through which a commit of the transaction runs
+	var dispatch []ssa.Instruction
+	nUnstable := 0
+	for _, sc := range wScopes {
+		for _, call := range P.CallsIn(sc.Fn, func(f *ssa.Function) bool { return V.Terminators[f] == "commit" }) {
+			dispatch = append(dispatch, topInstr(wScopes, sc, call))
+		}
+		for _, call := range P.CallsIn(sc.Fn, funcIs(V.CommitUnstable)) {
+			nUnstable++
+			ok := guardedUp(wScopes, sc, call.Block(), notLevelM(fileSync)) && guardedUp(wScopes, sc, call.Block(), notLevelM(dataSync))
+			R.Check(ok, id, "NFSPROC3_WRITE|CommitUnstable only when neither FILE_SYNC nor DATA_SYNC", P.Pos(call.Pos()), "the asynchronous commit is dominated by args.Stable != FILE_SYNC and args.Stable != DATA_SYNC", "both guards dominate", "a write requested with stable semantics is acknowledged after an asynchronous commit")
+		}
 	}
 	// the level reported
 	nst := 0
@@ -82,7 +95,7 @@ func ruleU1(c *Ctx, id string) {
 					for _, in2 := range b2.Instrs {
 						if s2, ok := in2.(*ssa.Store); ok {
 							if _, p := paramFieldPath(s2.Addr); p == "Stable" {
-								for _, call := range P.CallsIn(w, func(f *ssa.Function) bool { return V.Terminators[f] == "commit" }) {
+								for _, call := range dispatch {
 									if reachableFrom(call, in2) && reachableFrom(in2, in) {
 										okNoStore = false
 									}
@@ -93,11 +106,11 @@ func ruleU1(c *Ctx, id string) {
 				}
 				R.Check(okNoStore, id, "NFSPROC3_WRITE|Committed is the dispatched level", P.Pos(in.Pos()), "reply.Committed = args.Stable, the same cell the commit call was selected by, not modified in between", "same cell, no intervening store", "the level reported is changed after the commit was chosen")
 			} else if k, isk := constInt(st.Val); isk && k == fileSync {
-				sync := func(in ssa.Instruction) bool {
+				sync := NewAlwaysInstr(P, func(in ssa.Instruction) bool {
 					cal := staticCallee(in)
 					return cal == V.Commit || cal == V.CommitData
-				}
-				R.Check(MustBefore(w, sync)(in) && len(P.CallsIn(w, funcIs(V.CommitUnstable))) == 0, id, "NFSPROC3_WRITE|constant FILE_SYNC only after a synchronous commit", P.Pos(in.Pos()), "a constant FILE_SYNC reply is preceded on every path by a synchronous commit", "must-precede", "FILE_SYNC is reported although the commit may have been asynchronous")
+				})
+				R.Check(MustBefore(w, sync)(in) && nUnstable == 0, id, "NFSPROC3_WRITE|constant FILE_SYNC only after a synchronous commit", P.Pos(in.Pos()), "a constant FILE_SYNC reply is preceded on every path by a synchronous commit", "must-precede", "FILE_SYNC is reported although the commit may have been asynchronous")
 			} else {
 				R.Fail(id, "NFSPROC3_WRITE|Committed source", P.Pos(in.Pos()), "reply.Committed is args.Stable or a constant justified by the commit performed", "unrecognised source of the reported level")
 			}
@@ -133,7 +146,7 @@ func ruleU1(c *Ctx, id string) {
 			return false, false
 		})
 		before := true
-		for _, call := range P.CallsIn(w, func(f *ssa.Function) bool { return V.Terminators[f] == "commit" }) {
+		for _, call := range dispatch {
 			if !reachableFrom(upg, call) || reachableFrom(call, upg) {
 				before = false
 			}
